@@ -6,10 +6,9 @@ from vf.gen import rbytes, pick_weighted
 from props.C34 import rchunks, ref_read, coq_ns
 
 ID = "C35"
-THEOREMS = ["C35_tmp"]
-_TODO = [
-    "C35_caps_roundtrip", "C35_hash_roundtrip",
-    "C35_report_roundtrip", "C35_shupd_roundtrip", "C35_shupd_sha256_refuted", "C35_uphav_roundtrip",
+THEOREMS = [
+    "C35_caps_roundtrip", "C35_hash_roundtrip", "C35_report_roundtrip",
+    "C35_shupd_sha256_refuted", "C35_shupd_roundtrip_partial", "C35_uphav_roundtrip",
     "C35_pushopts_roundtrip", "C35_srvresp_roundtrip", "C35_advrefs_roundtrip", "C35_advrefs_first_peeled",
     "C35_ulreq_filter_refuted",
 ]
